@@ -12,6 +12,7 @@
 #   o.range FN COUNT                    -> COUNT results "rx" (space separated) of resolve(fn..fn+count-1)
 #   o.res FN...                         -> one "rx" per FN
 # MA: "-" = empty, else comma separated "rx:tx" pairs.
+from excname import exc_name
 import sys
 import logging
 sys.path.insert(0, sys.argv[1])
@@ -73,7 +74,7 @@ def call(f):
         v = f()
         return "None" if v is None else str(v)
     except Exception as e:
-        return "EXC:%s" % type(e).__name__
+        return "EXC:%s" % exc_name(e)
 
 
 cur = None
@@ -97,7 +98,7 @@ for line in sys.stdin:
                     trx.enable_fh(int(tok[2]), int(tok[3]), parse_ma(tok[5]))
                     ini = "ok"
                 except Exception as e:
-                    ini = "EXC:%s" % type(e).__name__
+                    ini = "EXC:%s" % exc_name(e)
                 if int(tok[1]) == 2:
                     trx.disable_fh()
             fn = int(tok[4])
@@ -114,7 +115,7 @@ for line in sys.stdin:
                         trx.enable_fh(int(o[1]), int(o[2]), parse_ma(o[3]))
                         res.append("ok")
                     except Exception as e:
-                        res.append("EXC:%s" % type(e).__name__)
+                        res.append("EXC:%s" % exc_name(e))
                 elif o[0] == "D":
                     trx.disable_fh()
                     res.append("-")
@@ -137,4 +138,4 @@ for line in sys.stdin:
         else:
             print("bad-op")
     except Exception as e:
-        print("EXC %s" % type(e).__name__)
+        print("EXC %s" % exc_name(e))
